@@ -193,6 +193,17 @@ def fam_storage_mip(T=3, thorough=False):
     return out
 
 
+def fam_storage_burn(T=3):
+    """negative prices while the storage is full: with a lossy storage it pays to charge and discharge in the SAME step (energy is burnt through
+    the loss); the reported gross charge / discharge must be the physical ones, not the net dispatch"""
+    ids = Ids()
+    out = []
+    for st, pr in itertools.product([dict(size=1, cin=2, cout=1, eff=(1, 2), start=1, end=1), dict(size=2, cin=2, cout=1, eff=(1, 2)),
+                                     dict(size=1, cin=2, cout=1, eff=(1, 2), start=1, end=1, costin=1)], ([-3, -4, -2], [-2, 1, -5])):
+        out.append(F.make_cfg(ids(), T, [slack(T, 'n1', (pr * T)[:T], lo=-3, hi=3), F.storage(T, 'n1', **st)]))
+    return out
+
+
 def fam_storage_hold_start(T=4):
     """maximum holding duration when the storage is not empty at the start, and with inflow"""
     ids = Ids()
@@ -262,6 +273,10 @@ def fam_orders(T=3, thorough=False):
         # an order without any step in the horizon listed BEFORE / BETWEEN orders of which the last is too large for the companions to absorb in
         # full (partial execution would pay): with full execution it must stay at 0, and the outside order must stay inert
         [(-3, 0, 2, 1), (0, H, 1, 2), (0, 1, 4, 1)], [(0, H, 1, 2), (H + 1, H + 3, -1, 9), (1, 2, 4, 1)],
+        # the same price level quoted twice (two orders, two execution decisions): the companions can absorb one of them in full, not both
+        [(0, 1, 2, 1), (0, 1, 2, 1)],
+        # a profitable order that ended exactly when the horizon begins (the product that has just expired in a rolling run)
+        [(-2, 0, -2, 9), (0, H, 1, 2)],
     ]
     for orders, full, companion, pr in itertools.product(books, (False, True), ('contract', 'storage'), ([3, 1, 4], [2, 5, 1])):
         pr = (pr * T)[:T]
@@ -290,7 +305,8 @@ def fam_orders_dt(T=3):
     ids = Ids()
     out = []
     disc, DEN = F.disc_pow2(T)
-    for orders, full in itertools.product([[(0, 6, 1, 2)], [(2, 4, -1, 4), (0, 4, 1, 1)], [(-2, 2, 1, 1), (4, 8, -1, 5)]], (False, True)):
+    # (the last list: orders shorter than a step that contain NO grid point -- nothing is delivered, nothing is paid -- next to an ordinary one)
+    for orders, full in itertools.product([[(0, 6, 1, 2)], [(2, 4, -1, 4), (0, 4, 1, 1)], [(-2, 2, 1, 1), (4, 8, -1, 5)], [(1, 2, -1, 5), (3, 4, 1, 1), (0, 4, 1, 2)]], (False, True)):
         ob = F.orderbook(T, 'n1', orders, fullexec=full, fden=2)
         out.append(F.make_cfg(ids(), T, [ob, slack(T, 'n1', ([3, 1, 4] * T)[:T], lo=-2, hi=2)], dt=[2] * T))
     for orders, full in itertools.product([[(0, 3, 1, 2)], [(1, 2, -1, 4), (0, 2, 1, 1)], [(-1, 1, 1, 1), (2, 4, -1, 5)]], (False, True)):
@@ -398,6 +414,25 @@ def fam_split(thorough=False):
             a = [F.contract(T, 'n1', 0, 2, pr2 if sense == 'min' else [1] * T, takes=[dict(s=s, e=e, vol=3, sense=sense)], force_contract=True),
                  slack(T, 'n1', ([2, 3, 2, 3, 2, 3] * T)[:T], lo=-4, hi=0)]
             out.append(F.make_cfg(ids(), T, a, split=sp, refines=False, interval=iv, coupling='takes'))
+    return out
+
+
+def fam_split_unaligned():
+    """interval size that is not a multiple of the grid step (steps of 2 hours cut into intervals of 3 hours): a step belongs to the interval
+    it STARTS in, and keeps its whole length there"""
+    ids = Ids()
+    out = []
+    T = 5
+    dt = [2] * T
+    sp = {3, 4}          # intervals [0,3h): steps 1-2, [3h,6h): step 3, [6h,9h): steps 4-5 ... (the step from 8h starts in [6h,9h))
+    pr1 = [1, 5, 2, 6, 3]
+    for ec in (0, 1):
+        a = [F.contract(T, 'n1', -1, 1, pr1, ec=ec, q=2), slack(T, 'n1', 3, lo=-2, hi=2, q=2)]
+        out.append(F.make_cfg(ids(), T, a, dt=dt, split=sp, refines=True, interval='3h', coupling='none'))
+    a = [slack(T, 'n1', pr1, lo=-3, hi=3, q=2), F.storage(T, 'n1', size=4, cin=1, cout=1, q=2)]
+    out.append(F.make_cfg(ids(), T, a, dt=dt, split=sp, refines=True, interval='3h', coupling='storage_start_eq_end'))
+    a = [F.contract(T, 'n1', 1, 1, [0] * T, q=2), slack(T, 'n1', pr1, lo=-2, hi=2, q=2)]      # a fixed delivery that must be served in every step
+    out.append(F.make_cfg(ids(), T, a, dt=dt, split=sp, refines=True, interval='3h', coupling='none'))
     return out
 
 
